@@ -672,6 +672,11 @@ func allDisjuncts(dnf [][]Guard, pred func(Guard) bool, depth int) bool {
 					ok = true
 					break
 				}
+				// a guard on a hoisted boolean (`full := a && b; if full`) implies what made it so
+				if exp := boolPhiDNF(g); exp != nil && allDisjuncts(exp, pred, depth-1) {
+					ok = true
+					break
+				}
 			}
 		}
 		if !ok {
